@@ -1,7 +1,7 @@
 """C05 -- requests resolve to a documented status; refused requests change nothing."""
 import json
 from lib.common import coq_props, coq_cases
-from lib import world, reqwalk, gen_tie
+from lib import world, reqwalk, gen_tie, docmask
 
 DISRUPT = ("node-shutdown", "node-startup", "node-reset", "node-service-stop", "node-service-disable", "node-service-pause",
            "node-file-delete", "node-folder-create", "node-application-remove", "node-application-close", "host-nic-disable",
@@ -16,6 +16,15 @@ def explore(ck, name, cfg, rounds, per_round, label):
     ids = reqwalk.KeyIds()
     coq_in = []
     for rd in range(rounds):
+        if rd in (1, 3):
+            # bring every powered-off node back up so that the post-start-up state (declared-OFF nodes, nodes the
+            # walk shut down) is explored as well
+            for n in sim.network.nodes.values():
+                if n.operating_state.name == "OFF":
+                    sim.apply_request(["network", "node", n.config.hostname, "startup"])
+            for _ in range(5):
+                game.pre_timestep()
+                game.advance_timestep()
         inv = world.inventory(sim)
         cat = world.catalogue(inv, rng, missing=True)
         batch = rng.sample(cat, min(per_round, len(cat)))
@@ -38,6 +47,7 @@ def explore(ck, name, cfg, rounds, per_round, label):
             variants += rng.sample(muts, min(3 if raw is None else 2, len(muts)))
             for (mlabel, r) in variants:
                 inv_now = world.inventory(sim) if (mlabel == "as-formed" and raw is None) else None
+                doc = docmask.available(sim, t, o) if (mlabel == "as-formed" and raw is None) else None
                 res = reqwalk.execute(sim, r, ids, compare_state=True)
                 if res.get("skip"):
                     ck.count("skipped:validator-raised-on-malformed-args")
@@ -75,6 +85,10 @@ def explore(ck, name, cfg, rounds, per_round, label):
                         ck.count("note:refused-by-validator-below-registered-leaf")
                     if not res["invoked"]:
                         ck.violation("reaching-not-routed:%s" % t, "request %s passes every validator but its handler was not invoked (status %s)" % (r, st), rep)
+                if doc is not None and bool(doc) != bool(res["invoked"]):
+                    ck.violation("permission-table:%s" % t, "%s %s: the documented permission rules evaluated on the simulator objects say %s, "
+                                 "but the request %s its handler (status %s)" % (t, o, "allowed" if doc else "refused",
+                                                                                "reached" if res["invoked"] else "did not reach", st), rep)
                 if mlabel == "as-formed" and raw is None and st == "unreachable" and world.targets_exist(inv_now, t, o):
                     ck.violation("existing-target-unreachable:%s" % t, "action %s %s names existing components but was unreachable" % (t, o), rep)
                 if "coq_in" in res:
@@ -96,6 +110,7 @@ def scenarios(ck):
     out = [("pkg/data_manipulation.yaml", world.load_cfg(world.PKG + "/data_manipulation.yaml"))]
     from lib import family
     out.append(("family/%d" % ck.seed, family.generate(ck.seed)))
+    out.append(("family/%d+off" % (ck.seed + 1), family.generate(ck.seed + 1, force_off=True)))
     if not ck.quick:
         for nme, p in world.shipped("all"):
             if nme.endswith(("uc7_config.yaml", "dmz_network.yaml", "basic_firewall.yaml", "install_and_configure_apps.yaml", "basic_node_with_users.yaml")):
